@@ -785,7 +785,7 @@ def combine_case(desc):
     run = call_combine(desc, 4242)
     run2 = call_combine(desc, 17) if run["exc"] is None else None
     viol = oracle_combine(desc, run, run2)
-    info = {"tag": "combine:%d" % len(desc["aps"]), "raised": run["exc"] is not None}
+    info = {"tag": "combine:%d:%s" % (len(desc["aps"]), "ascending" if sorted(desc["aps"]) == list(desc["aps"]) else "shuffled"), "raised": run["exc"] is not None}
     it = Intern()
     core, subs, aps = desc["core"], desc["subs"], desc["aps"]
     sig = inspect.signature(ml.Structure.join).parameters
@@ -798,11 +798,10 @@ def combine_case(desc):
         if obs_t is None:
             return None, viol, dict(info, skipped="product not observable")
     steps = []
-    ok_addr = sorted(aps) == list(aps)
     for i, (p, s) in enumerate(zip(aps, subs)):
         q = first_ap_pos(s)
-        # the atom the code addresses at step i is position p - i of the current derivative; when the attachment
-        # points are ascending that is core atom p (theorem C12_iterated); witnesses are computed for that atom
+        # the atom the (repaired) loop addresses at step i is core atom p whatever the order of core_aps (theorem
+        # C12_iterated); witnesses are computed for that atom and re-checked inside Coq on the atom the model addresses
         rA, rB = neighbour_of(core, p), neighbour_of(s, q)
         v1 = [core["coords"][p][c] - core["coords"][rA][c] for c in range(3)]
         v2 = [s["coords"][q][c] - s["coords"][rB][c] for c in range(3)]
@@ -811,7 +810,7 @@ def combine_case(desc):
         if abs(c - (JOIN_TOL - 1)) < Fr(1, 10 ** 9) or ((not anti) and 1 + c < Fr(1, 1000)):
             return None, viol, dict(info, skipped="a step is too close to the antiparallel threshold")
         sc = None
-        if view is not None and ok_addr:
+        if view is not None:
             keepB = [k for k in range(len(s["atoms"])) if k != q]
             ml_d = float((ml.Element.get(core["atoms"][rA]["el"]).cov_radius_1 or ml.Element.C.cov_radius_1)
                          + (ml.Element.get(s["atoms"][rB]["el"]).cov_radius_1 or ml.Element.C.cov_radius_1))
@@ -839,7 +838,8 @@ def plan(ctx):
     out = []
     for flavour, cnt in (("general", 150), ("antiparallel", 60), ("parallel", 25), ("axis", 25), ("invalid", 20), ("mult0", 6)):
         out += [("join", rng.randrange(2 ** 40), flavour) for _ in range(cnt * n)]
-    out += [("combine", rng.randrange(2 ** 40), "ascending") for _ in range(70 * n)]
+    out += [("combine", rng.randrange(2 ** 40), "ascending") for _ in range(45 * n)]
+    out += [("combine", rng.randrange(2 ** 40), "shuffled") for _ in range(30 * n)]
     return out
 
 
@@ -882,7 +882,7 @@ def run(ctx, rep):
             rep.extra.setdefault("harness_errors", []).append(f"{rd}: {e!r}"[:300])
             rep.case(key=None)
             continue
-        rep.count(kind + ":" + str(info.get("tag", flavour)).split(":")[0])
+        rep.count(kind + ":" + (str(info.get("tag", flavour)).split(":")[0] if kind == "join" else flavour))
         if info.get("branch"):
             rep.count("branch:" + info["branch"])
         if info.get("twist") not in (None, 0.0):
@@ -936,7 +936,7 @@ def neighbourhood(ctx, item):
     out = []
     r = random.Random(seed)
     trials = [(kind, seed, flavour)] + [(kind, r.randrange(2 ** 40), f) for f in
-                                         (["general", "antiparallel", "parallel", "axis"] if kind == "join" else ["ascending"]) for _ in range(15)]
+                                         (["general", "antiparallel", "parallel", "axis"] if kind == "join" else ["ascending", "shuffled"]) for _ in range(15)]
     for k, s, f in trials:
         try:
             _, viol, _ = run_one(k, s, f)
